@@ -203,7 +203,8 @@ func c17Case(c *core.Ctx, idx int) {
 	if r.Chance(1, 3) {
 		fam = 5
 	}
-	g := gen.NewG(r.Split("prog"), gen.Opts{Fam: fam, NoHTML: true, MaxDepth: r.Range(1, 3), MaxStmts: r.Range(1, 3), Formatter: true})
+	flex := fam == 7 && r.Chance(1, 2)
+	g := gen.NewG(r.Split("prog"), gen.Opts{Fam: fam, NoHTML: true, MaxDepth: r.Range(1, 3), MaxStmts: r.Range(1, 3), Formatter: true, Flex73: flex})
 	root := g.Program()
 	ver := progVersion(r, fam, root.HasFlag(gen.FFlex73))
 	toks := root.Tokens()
